@@ -10,11 +10,13 @@ SPEC = {
         {'pkg': 'commit/merkleroot', 'pkgname': 'merkleroot', 'src': 'harness/commit/merkleroot/c15_test.go',
          'test': 'TestVerif_C15_observe_commit', 'fakes': True,
          'sinks': {'C15_obs_commit': 'obsc_judge'}, 'n': {'quick': 400, 'thorough': 20000}},
-        {'pkg': 'commit', 'src': 'harness/commit/c15_test.go', 'test': 'TestVerif_C15_accept_commit', 'fakes': True,
-         'sinks': {'C15_acc_commit': 'acc_judge'}, 'n': {'quick': 400, 'thorough': 20000}},
+        {'pkg': 'commit', 'src': 'harness/commit/c15_test.go', 'test': 'TestVerif_C15_(accept|cycle)_commit', 'fakes': True,
+         'sinks': {'C15_acc_commit': 'acc_judge', 'C15_cyc_commit': 'cycc_judge', 'C15_cyc_acc_commit': 'acc_judge'},
+         'n': {'quick': 400, 'thorough': 20000}},
         # one part per package: two parts of one package would race on the generated overlay file
-        {'pkg': 'execute', 'src': 'harness/execute/c15_test.go', 'test': 'TestVerif_C15_(observe|accept)_exec', 'fakes': True,
-         'sinks': {'C15_obs_exec': 'obse_judge', 'C15_acc_exec': 'acc_judge'}, 'n': {'quick': 400, 'thorough': 20000}},
+        {'pkg': 'execute', 'src': 'harness/execute/c15_test.go', 'test': 'TestVerif_C15_(observe|accept|cycle)_exec', 'fakes': True,
+         'sinks': {'C15_obs_exec': 'obse_judge', 'C15_acc_exec': 'acc_judge', 'C15_cyc_exec': 'cyce_judge', 'C15_cyc_acc_exec': 'acc_judge'},
+         'n': {'quick': 400, 'thorough': 20000}},
     ],
     'rule': 'subj: real getCurseInfoFromCursedSubjects + CurseInfo.NonCursedSourceChains on subject sets of classes none/global/dest/sources/all sources/'
             'near-miss (one bit off the global, destination or a source subject)/high half non-zero and swapped halves/mixed/duplicate request, selectors '
@@ -26,7 +28,7 @@ SPEC = {
             'ranges over error kinds (plain, wrapping reader.ErrContractReaderNotFound, wrapping contractreader.ErrNoBindings, both, context deadline / cancellation, error with a '
             'non-nil answer) and over states of the REAL ccipChainReader (no destination reader, RMNRemote not bound, bound with failing call, bound and cursed globally / '
             'destination / per lane / clean), with a global or lane curse on chain while the read fails. In the three plugin-level '
-            'parts one plugin instance receives 1..4 calls while the remote changes between them (history/* classes). non-trivial = subjects and sources non-empty '
+            'parts one plugin instance receives 1..4 calls while the remote changes between them (history/* classes). cyc_commit / cyc_exec: the REAL commit.Plugin and execute.Plugin (NewPlugin; real merkleroot.Processor, real chain support over the fake home chain, contract discovery off) with Plugin.Observation called in every state / phase (commit: SelectingRanges after every outcome type that leads there, BuildingReport, WaitingForTransmission; execute: GetCommitReports after Unknown/Initialized/Filter, GetMessages, Filter), one instance running one or two full cycles while the remote (all classes and error kinds above, scripted and real reader) changes before every round; previous outcomes carry leftovers of earlier rounds (numbers, roots, ranges, pending reports) that must not leak; round 2 works on what round 1 agreed, also when a lane / global curse is placed afterwards, and the report the cycle leads to is presented to ShouldAcceptAttestedReport under the curse state of that moment (cyc_acc_*). non-trivial = subjects and sources non-empty '
             '(subj), >= 2 known sources / pending chains and destination supported (obs), report names >= 1 source (acc); distinct by full input',
     'trusted': ['the chain-level contract reader underneath ccipChainReader (scripted facade returning the cursed subjects / failing); two fifths of the '
                 'plugin-level curse reads go through the real ccipChainReader.GetRmnCurseInfo, the rest through a fake that answers like it (only for the chains asked about)',
@@ -40,6 +42,6 @@ SPEC = {
                   'Correspondence: subject decoding, both observations and both acceptance callbacks run against the model on every run, with curse sets changing between calls',
     'level_note': 'Trusted: Coq kernel, hand-written model, differential harness, scripted readers. Statements are per call (the model is stateless; the history classes test that the '
                   'implementation is too). The interval-selection consequence (cursed source absent from outcomes) rests on C02 and is not restated here. No axioms.',
-    'modelled': 'getCurseInfoFromCursedSubjects, NonCursedSourceChains, IsReportCursed, ObserveOffRampNextSeqNums, getCurseInfo + getCommitReportsObservation, curse step of both '
+    'modelled': 'Processor.getObservation / execute Plugin.Observation dispatch (which phases read curse-gated data: commit BuildingReport observes roots of the agreed ranges and execute GetMessages / Filter observe messages / nonces of the agreed reports WITHOUT a curse re-check, as coded — the acceptance check is what stops such a report), getCurseInfoFromCursedSubjects, NonCursedSourceChains, IsReportCursed, ObserveOffRampNextSeqNums, getCurseInfo + getCommitReportsObservation, curse step of both '
                 'ShouldAcceptAttestedReport (gates from Model/Transmit.v)',
 }
